@@ -38,22 +38,25 @@ enum { K_CLEAR, K_CLEAR_NONEMPTY, K_FOREACH_ERASE, K_SORT_GT1, K_REVERSE_GT1, K_
 static const char *w_counter_names[] = { "clear_applied", "clear_on_nonempty", "foreach_with_removal", "sort_len_gt1", "reverse_len_gt1",
                                           "concat_nonempty_source", "swap_with_one_empty", "pop_on_empty", NULL };
 
-static int w_nconfigs(int thorough) { return thorough ? 6 : 3; }
+static int w_nconfigs(int thorough) { return thorough ? 9 : 3; }
 static int USE_MACRO;
 static void w_setup(int cfg, int thorough)
 {
     int i, l, j, d;
-    static const int v5[] = { 0, 1, 1, 2, 3 }, v6[] = { 2, 0, 1, 1, 3, 0 }, v4[] = { 1, 0, 1, 2 };
+    static const int v5[] = { 0, 1, 1, 2, 3 }, v6[] = { 2, 0, 1, 1, 3, 0 }, v4[] = { 1, 0, 1, 2 }, v7[] = { 2, 0, 1, 1, 3, 0, 2 }, v8[] = { 2, 0, 1, 1, 3, 0, 2, 3 };
     const int *v;
     MIXED = 0; USE_MACRO = cfg & 1;      /* odd configurations build the lists with CSTL_DLIST_INITIALIZER instead of the init function */
     if (!thorough && cfg == 2) { MIXED = 1; cfg = 0; }
-    if (thorough && cfg >= 4) { MIXED = 1; cfg = cfg == 4 ? 0 : 1; }
+    if (thorough && (cfg == 4 || cfg == 5)) { MIXED = 1; cfg = cfg == 4 ? 0 : 1; }
     if (!thorough) {
         if (cfg == 0) { NL = 2; N = 5; v = v5; } else { NL = 3; N = 4; v = v4; }
     } else {
         if (cfg == 0) { NL = 2; N = 5; v = v5; }
         else if (cfg == 1) { NL = 3; N = 4; v = v4; }
         else if (cfg == 2) { NL = 2; N = 6; v = v6; }
+        else if (cfg == 6) { NL = 2; N = 7; v = v7; }
+        else if (cfg == 7) { NL = 3; N = 6; v = v6; }
+        else if (cfg == 8) { NL = 2; N = 8; v = v8; }
         else { NL = 3; N = 5; v = v5; }
     }
     for (i = 0; i < N; i++) vals[i] = v[i];
